@@ -72,6 +72,14 @@ def compare(exp, got, resolved_ok, resolved):
         g = got.get(name)
         if g != want:
             return BAD("digest-differs:%s" % name, "%s=%s" % (name, want), "%s=%s" % (name, g), n=4, clause=name)
+        # the same message handed over as a bytearray the caller goes on using: same digest (a TypeError would mean the type
+        # is not supported, which is outside the property), and the caller's buffer is left alone
+        g = got.get(name + "[bytearray]")
+        if g is not None and g != want and not g.startswith("EXC TypeError"):
+            return BAD("digest-differs:%s" % name, "%s(bytearray)=%s" % (name, want), "%s=%s" % (name, g), n=8, clause=name + ":bytearray")
+    if got.get("buffer-after") not in (None, "unchanged"):
+        return BAD("argument-mutated", "the caller's bytearray is unchanged after hashing", "buffer is now %s" % got["buffer-after"][:120], n=8,
+                   clause="argument-mutated")
     return None
 
 
@@ -98,6 +106,17 @@ def impl_digests(mod_hash, mod_contrib, msg):
             out[name] = bytes(v).hex() if isinstance(v, (bytes, bytearray)) else "NOT-BYTES %r" % (v,)
         except Exception as e:
             out[name] = "EXC %s: %s" % (type(e).__name__, e)
+    buf = bytearray(msg)
+    for name, f in (("contrib", lambda: mod_contrib.ripemd160(buf)),
+                    ("ripemd160", lambda: mod_hash.ripemd160(buf).digest()),
+                    ("hash160", lambda: mod_hash.hash160(buf)),
+                    ("double_sha256", lambda: mod_hash.double_sha256(buf))):
+        try:
+            v = f()
+            out[name + "[bytearray]"] = bytes(v).hex() if isinstance(v, (bytes, bytearray)) else "NOT-BYTES %r" % (v,)
+        except Exception as e:
+            out[name + "[bytearray]"] = "EXC %s: %s" % (type(e).__name__, e)
+    out["buffer-after"] = "unchanged" if bytes(buf) == bytes(msg) else "%d bytes: %s" % (len(buf), bytes(buf).hex())
     return out
 
 
@@ -178,8 +197,15 @@ for line in sys.stdin:
             m = bytes(i & 255 for i in range(spec["length"]))
         else:
             m = bytes([int(spec["fill"], 16)]) * spec["length"]
-        out.append(dict(contrib=one("c", lambda: C.ripemd160(m)), ripemd160=one("r", lambda: H.ripemd160(m).digest()),
-                        hash160=one("h", lambda: H.hash160(m)), double_sha256=one("d", lambda: H.double_sha256(m))))
+        d = dict(contrib=one("c", lambda: C.ripemd160(m)), ripemd160=one("r", lambda: H.ripemd160(m).digest()),
+                 hash160=one("h", lambda: H.hash160(m)), double_sha256=one("d", lambda: H.double_sha256(m)))
+        buf = bytearray(m)
+        d["contrib[bytearray]"] = one("c", lambda: C.ripemd160(buf))
+        d["ripemd160[bytearray]"] = one("r", lambda: H.ripemd160(buf).digest())
+        d["hash160[bytearray]"] = one("h", lambda: H.hash160(buf))
+        d["double_sha256[bytearray]"] = one("d", lambda: H.double_sha256(buf))
+        d["buffer-after"] = "unchanged" if bytes(buf) == m else "%d bytes: %s" % (len(buf), bytes(buf).hex())
+        out.append(d)
     print(json.dumps(dict(resolved=resolved, where=where, env=__import__("os").environ.get("PYCOIN_USE_PYTHON_RIPEMD160"), out=out)))
     sys.stdout.flush()
 """
